@@ -22,7 +22,7 @@ NBINS = 8
 
 
 def plan(tier):
-    return {"n": 200 if tier == "quick" else 25000, "floor": 50 if tier == "quick" else 6000}
+    return {"n": 200 if tier == "quick" else 1600, "floor": 50 if tier == "quick" else 384}
 
 
 def rule(tier):
